@@ -25,6 +25,7 @@ func init() {
 	gens["Src_bind.v"] = genGoLiteBind
 	gens["Src_keyauth.v"] = genGoLoopKeyAuth
 	gens["Src_basicauth.v"] = genGoLoopBasicAuth
+	gens["Src_staticdir.v"] = genGoLoopStaticDir
 }
 
 // innerHandler finds the innermost function literal of shape func(c echo.Context) error inside fd.
@@ -255,6 +256,9 @@ func (g *goliteCfg) expr(e ast.Expr) (string, error) {
 		}
 		switch v.Op {
 		case token.ADD:
+			if g.loop && (isStringy(v.X) || isStringy(v.Y)) {
+				return fmt.Sprintf("EPred \"concat\" [%s; %s]", a, b), nil
+			}
 			return fmt.Sprintf("EAdd (%s) (%s)", a, b), nil
 		case token.SUB:
 			return fmt.Sprintf("ESub (%s) (%s)", a, b), nil
@@ -1035,4 +1039,48 @@ func genGoLoopBasicAuth(repo string) (string, error) {
 		return "", err
 	}
 	return goloopHeader + "(* middleware/basic_auth.go: the request handler (innermost closure) of BasicAuthWithConfig.  Slicing, indexing, len and\n   strings.EqualFold are pure predicates; base64 decoding and the validator are fixed functions of their arguments (SCallP). *)\n" + s, nil
+}
+
+// isStringy: an expression that is visibly a string (a string literal, or a concatenation containing one)
+func isStringy(e ast.Expr) bool {
+	switch v := e.(type) {
+	case *ast.BasicLit:
+		return v.Kind == token.STRING
+	case *ast.ParenExpr:
+		return isStringy(v.X)
+	case *ast.BinaryExpr:
+		return v.Op == token.ADD && (isStringy(v.X) || isStringy(v.Y))
+	}
+	return false
+}
+
+func genGoLoopStaticDir(repo string) (string, error) {
+	f, err := parseFile(repo, "echo_fs.go")
+	if err != nil {
+		return "", err
+	}
+	fd := findFunc(f, "", "StaticDirectoryHandler")
+	if fd == nil {
+		return "", fmt.Errorf("StaticDirectoryHandler not found")
+	}
+	var fl *ast.FuncLit
+	ast.Inspect(fd.Body, func(n ast.Node) bool {
+		if x, ok := n.(*ast.FuncLit); ok && fl == nil {
+			fl = x
+		}
+		return true
+	})
+	if fl == nil {
+		return "", fmt.Errorf("StaticDirectoryHandler: no handler closure found")
+	}
+	s, err := goliteFunc(&ast.FuncDecl{Name: fd.Name, Type: fl.Type, Body: fl.Body}, "static_dir_handler", goliteCfg{loop: true,
+		ignore: map[string]bool{}, cells: map[string]bool{},
+		tail:   map[string]bool{"c.Redirect": true, "fsFile": true},
+		pure:   map[string]bool{"len": true, "strings.TrimPrefix": true, "filepath.Clean": true, "filepath.ToSlash": true, "sanitizeURI": true, ".IsDir": true},
+		pcall:  map[string]bool{"url.PathUnescape": true, "fs.Stat": true},
+		extern: map[string]bool{}})
+	if err != nil {
+		return "", err
+	}
+	return goloopHeader + "(* echo_fs.go: the handler returned by StaticDirectoryHandler (Echo.Static, Group.Static, StaticFS).  Unescaping and fs.Stat are\n   fixed functions of their arguments (SCallP); TrimPrefix, Clean, ToSlash, sanitizeURI, len, indexing and concatenation are pure. *)\n" + s, nil
 }
